@@ -378,3 +378,34 @@ Definition ok_union (c : option (string * list (string * nat)) * nat * ujobj * o
      | None => true
      end.
 Definition mismatches_union := mismatches ok_union.
+
+(** * C01: names and type de-duplication *)
+From Coq Require Import NArith.
+From V Require Import Model.Names.
+
+(** a case: the runes of a name as the unicode package describes them (code, class, upper-case image), and
+    the code points of what ToCamelCase, ToCamelCaseWithDigits, SchemaNameToTypeName and SanitizeGoIdentity
+    returned for it (None = the function panicked) *)
+Definition mk_rune (q : N * cls * (N * cls)) : rune := let '(c, k, u) := q in {| code := c; cl := k; up := u |}.
+Definition ok_names (c : list (N * cls * (N * cls)) * (list N * list N * list N * option (list N))) : bool :=
+  let '(rs, (o_camel, o_digits, o_type, o_san)) := c in
+  let s := map mk_rune rs in
+  forallb wf_runeb s
+  && codes_eqb (map fst (camel s)) o_camel
+  && codes_eqb (map fst (camel_digits s)) o_digits
+  && codes_eqb (map fst (type_name camel s)) o_type
+  && match o_san with
+     | Some o => codes_eqb (map fst (sanitize (map out s))) o && negb (sanitize_panics (map out s))
+     | None => sanitize_panics (map out s)
+     end.
+Definition mismatches_names := mismatches ok_names.
+
+(** a case: the (name, definition) numbers handed to GenerateTypes and the names it emitted (None = error) *)
+Definition ok_dedup (c : list (nat * nat) * option (list nat)) : bool :=
+  let '(l, obs) := c in
+  match dedup l, obs with
+  | Some o, Some names => list_eqb Nat.eqb (map fst o) names
+  | None, None => true
+  | _, _ => false
+  end.
+Definition mismatches_dedup := mismatches ok_dedup.
